@@ -12,9 +12,20 @@ package reflectx
 //@ ensures [is-implements] result == TypeImplements(typ, _interface)
 
 // Id(o): the default component name: package path + type name of o's dynamic type (A-REFLECT); a function of o's type.
-//@ spec func IdOf(o any) string
+// TypeIdOf(t): the default name of a type: package path joined with the type name (of the pointed-to type for a
+// pointer), or the type's printed form when it has no name. IdOf(o): that of o's dynamic type, "<nil>" for nil.
+//@ spec func TypeDeref(t reflect.Type) reflect.Type = ite(t.Kind() == 22, t.Elem(), t)
+//@ spec func TypeIdOf(t reflect.Type) string = ite(TypeDeref(t).Name() == "", TypeDeref(t).String(), PathJoin2(TypeDeref(t).PkgPath(), TypeDeref(t).Name()))
+//@ spec func IdOf(o any) string = ite(o == nil, "<nil>", TypeIdOf(RDynType(o)))
+//@ func TypeId
+//@ terminates
+//@ property C07
+//@ requires [type-given] p != nil && implies(p.Kind() == 22, p.Elem() != nil)
+//@ assigns nothing
+//@ ensures [package-path-and-name] result == TypeIdOf(p)
 //@ func Id
-//@ trusted
+//@ terminates
+//@ property C07
 //@ assigns nothing
 //@ ensures [type-id] result == IdOf(c)
 
